@@ -4,6 +4,7 @@ import copy
 import json
 import os
 import random
+import shutil
 import sys
 
 sys.path.insert(0, os.path.dirname(os.path.abspath(__file__)))
@@ -53,18 +54,56 @@ def wire(p):
     return p["alias"] or p["name"]
 
 
-def paths_mismatch_equal_counts(u):
-    """F6 class: a documented route whose template names differ from its path parameters although
-    there are as many of each (which is all kin-openapi compares)."""
+def f6_paths(u):
+    """F6 class: the documented routes whose template names differ from their path parameters although
+    there are as many of each (which is all kin-openapi compares) AND whose own @Route is linked correctly:
+    every variable of the METHOD's template is the name of one of its path parameters, so that what differs
+    are variables of the controller's @Route (the part gleece never matches).  Returns their full paths."""
+    out = set()
     for c in u["ctrls"]:
         for r in c["routes"]:
             if r["hidden"]:
                 continue
             names = sorted(set(template_names(full_path(c, r))))
             ps = sorted(wire(p) for p in r["params"] if p["loc"] == "path")
-            if names != ps and len(names) == len(ps):
-                return True
-    return False
+            if names != ps and len(names) == len(ps) and set(template_names(r["path"])) <= set(ps):
+                out.add(full_path(c, r))
+    return out
+
+
+def doc_paths_failing_clause2(spec):
+    """Clause 2 read off the raw file, per path: the paths with an operation whose required path parameters
+    are not exactly the variables of the template (python twin of Schema.paths_match, used ONLY to decide
+    whether a clause-2 failure reported by the Coq oracle is confined to the routes of the F6 class)."""
+    bad = set()
+    paths = spec.get("paths") if isinstance(spec, dict) else None
+    if not isinstance(paths, dict):
+        return bad
+    for path, item in paths.items():
+        if not isinstance(item, dict):
+            continue
+        shared = item.get("parameters") if isinstance(item.get("parameters"), list) else []
+        for verb in T.VERB_KEYS:
+            op = item.get(verb)
+            if not isinstance(op, dict):
+                continue
+            ps = [p for p in shared + (op.get("parameters") if isinstance(op.get("parameters"), list) else [])
+                  if isinstance(p, dict) and p.get("in") == "path"]
+            if sorted(template_names(path)) != sorted(str(p.get("name")) for p in ps) \
+                    or not all(p.get("required") is True for p in ps):
+                bad.add(path)
+    return bad
+
+
+def clause2_is_f6(u, spec):
+    """The document's clause-2 failures all sit on routes of the F6 class of this project."""
+    def norm(p):
+        while "//" in p:
+            p = p.replace("//", "/")
+        return p.rstrip("/") or "/"
+    f6 = set(norm(p) for p in f6_paths(u))
+    bad = set(norm(p) for p in doc_paths_failing_clause2(spec))
+    return bool(f6) and bool(bad) and bad <= f6
 
 
 def neutralise(spec, v, u):
@@ -140,6 +179,21 @@ def perturb(rng, base, kind):
     elif kind == "path-alias-not-in-url":
         r["path"] += "/{pa}"
         r["params"].append({"name": "pa", "loc": "path", "alias": "elsewhere", "type": P("string"), "validate": None})
+    elif kind == "template-variable-named-by-other-annotation":
+        # {tv} of the method's template is the name of NO path parameter; a query / header parameter goes
+        # by that name (its own or through the name property) and, mostly, an un-aliased @Path names something the
+        # template does not have, so that there are as many path parameters as template variables
+        r["path"] += "/{tv}"
+        loc = rng.choice(["query", "header"])
+        if rng.random() < 0.5:
+            r["params"].append({"name": "tv", "loc": loc, "alias": None, "type": P("string"), "validate": None})
+        else:
+            r["params"].append({"name": "tvArg", "loc": loc, "alias": "tv", "type": P("string"), "validate": None})
+        if rng.random() < 0.8:
+            r["params"].append({"name": "tvOther", "loc": "path", "alias": None, "type": P(rng.choice(["string", "int"])),
+                                "validate": None})
+        if rng.random() < 0.5:
+            rng.shuffle(r["params"])
     elif kind == "duplicate-url-param":
         r["path"] += "/{pd}/x/{pd}"
         r["params"].append({"name": "pd", "loc": "path", "alias": None, "type": P("string"), "validate": None})
@@ -212,7 +266,7 @@ KINDS = ["missing-path-param", "extra-path-param", "duplicate-query-name", "same
          "undeclared-scheme", "no-leading-slash", "prefix-param-unmatched", "prefix-param-other-name",
          "prefix-param-matched", "path-alias-not-in-url", "duplicate-url-param", "duplicate-route", "time-alias",
          "byte-field", "oneof-on-later-struct", "all-hidden", "template-variable-renamed", "non-ascii-type-name",
-         "context-param-first"]
+         "context-param-first", "template-variable-named-by-other-annotation"]
 
 
 def f6_universe():
@@ -286,6 +340,160 @@ def non_ascii_universe():
     return u
 
 
+def named_by_query_universe():
+    """GET /statements/by-account/{id} with @Path(accountId) and @Query(id): {id} is linked to no path parameter
+    (a query parameter has its name), accountId is in no template; one path parameter, one variable."""
+    P = T.prim
+    u = f6_universe()
+    u["ctrls"][0]["prefix"] = "/statements"
+
+    def par(name, loc, alias=None):
+        return {"name": name, "loc": loc, "alias": alias, "type": P("string"), "validate": None}
+    u["ctrls"][0]["routes"] = [
+        {"name": "ListStatements", "verb": "GET", "path": "/by-account/{id}", "hidden": False,
+         "params": [par("accountId", "path"), par("id", "query")],
+         "ret": ["slice", P("string")], "err": None, "errors": [], "security": []},
+        {"name": "GetStatement", "verb": "GET", "path": "/one/{no}", "hidden": False,
+         "params": [par("number", "path"), par("trace", "header", "no")],
+         "ret": P("string"), "err": None, "errors": [], "security": []}]
+    return u
+
+
+# ------------------------------------------------------------------ sequences over one output path
+
+def drop_unreachable(u):
+    reach = set(T.py_reach(u))
+    u["decls"] = [d for d in u["decls"] if (d["pkg"], d["name"]) in reach or d["pkg"] == "ctl"]
+    return u
+
+
+def smaller(rng, base, how):
+    """The same project after something left it: a controller, routes, the models of the results, the
+    descriptions of the configuration.  Every edit makes the emitted document shorter."""
+    u = copy.deepcopy(base)
+    if how == "one-route":
+        c = rng.choice(u["ctrls"])
+        c["routes"] = [rng.choice(c["routes"])]
+        u["ctrls"] = [c]
+        drop_unreachable(u)
+    elif how == "drop-controller-or-route":
+        if len(u["ctrls"]) > 1:
+            del u["ctrls"][rng.randrange(len(u["ctrls"]))]
+        else:
+            c = u["ctrls"][0]
+            if len(c["routes"]) > 1:
+                del c["routes"][rng.randrange(len(c["routes"]))]
+            else:
+                c["routes"][0]["params"] = [p for p in c["routes"][0]["params"] if p["loc"] in ("path", "ctx")]
+                c["routes"][0]["ret"] = None
+        drop_unreachable(u)
+    elif how == "no-models":
+        for r in T.all_routes(u):
+            r["ret"] = None
+            r["err"] = None
+            r["params"] = [p for p in r["params"] if not T.texpr_refs(p["type"])]
+            r["errors"] = []
+        u["decls"] = []
+    elif how == "shorter-configuration":
+        u["cfg"]["title"] = "A"
+        u["cfg"]["version"] = "1"
+        used = set(sc["name"] for c in u["ctrls"] for lst in [c["security"]] + [r["security"] for r in c["routes"]]
+                   for sc in lst)
+        if u["cfg"]["default"]:
+            used.add(u["cfg"]["default"]["name"])
+        u["cfg"]["schemes"] = [x for x in u["cfg"]["schemes"] if x["name"] in used] or u["cfg"]["schemes"][:1]
+        for r in T.all_routes(u):
+            r["errors"] = []
+    else:
+        raise ValueError(how)
+    return u
+
+
+SMALLER = ["one-route", "drop-controller-or-route", "no-models", "shorter-configuration"]
+
+
+def gen_sequence(rng, base):
+    """base, a smaller project, (an edit of it that is usually refused,) base again, the smallest project: every step is written
+    to the SAME output path by a fresh process, over what the step before left there."""
+    seq = [("base", base)]
+    b = smaller(rng, base, rng.choice(SMALLER))
+    seq.append(("smaller", b))
+    if rng.random() < 0.5:
+        bad = perturb(rng, b, rng.choice(["undeclared-scheme", "missing-path-param", "duplicate-route"]))
+        if bad is not None:
+            seq.append(("edit-usually-refused", bad))
+    seq.append(("base-again", copy.deepcopy(base)))
+    seq.append(("smallest", smaller(rng, smaller(rng, base, "one-route"), "no-models")))
+    return seq
+
+
+def fixed_sequence():
+    """The inventory project of context_first_universe; then only its Find route is left; then all of it again."""
+    a = context_first_universe()
+    b = copy.deepcopy(a)
+    b["ctrls"][0]["routes"] = [r for r in b["ctrls"][0]["routes"] if r["name"] == "Find"]
+    b["ctrls"][0]["security"] = []
+    return [("base", a), ("smaller", b), ("base-again", copy.deepcopy(a))]
+
+
+def run_sequences(prop, seqs, versions=T.VERSIONS, tag="seq", command="spec"):
+    """seqs: list of lists of (label, universe).  Step s of every sequence is rendered into the sequence's one
+    directory (sources and configuration replaced, ./dist kept as the step before left it) and generated by a
+    fresh CLI process per version.  Returns per sequence a list of steps: dict version -> observation with the
+    keys of T.run_universes; `sentinel` = a file was at the output path before the step, `untouched` = the
+    step FAILED and the bytes at the output path are those from before the step."""
+    T.build_cli()
+    moddir = os.path.join(WORK, prop, tag)
+    shutil.rmtree(moddir, ignore_errors=True)
+    T.P.make_module(moddir)
+    out = [[] for _ in seqs]
+
+    def read(path):
+        try:
+            with open(path, "rb") as f:
+                return f.read()
+        except OSError:
+            return None
+
+    for s in range(max([len(q) for q in seqs] or [0])):
+        jobs, index, before = [], [], {}
+        for k, q in enumerate(seqs):
+            if s >= len(q):
+                continue
+            root = os.path.join(moddir, "q%d" % k)
+            keep = os.path.join(moddir, "q%d.dist" % k)
+            shutil.rmtree(keep, ignore_errors=True)
+            if os.path.isdir(os.path.join(root, "dist")):
+                shutil.move(os.path.join(root, "dist"), keep)
+            T.render_universe(q[s][1], root, "verifproj/q%d" % k)       # removes the directory first
+            if os.path.isdir(keep):
+                shutil.move(keep, os.path.join(root, "dist"))
+            for v in versions:
+                cfgname = T.render_config(q[s][1], root, "verifproj/q%d" % k, v)
+                before[(k, v)] = read(os.path.join(root, "dist", "spec-%s.json" % v))
+                jobs.append({"dir": root, "args": ["generate", command, "-c", cfgname]})
+                index.append((k, v))
+        results = T.P.run_cli_many(jobs)
+        step = {}
+        for (k, v), r in zip(index, results):
+            path = os.path.join(moddir, "q%d" % k, "dist", "spec-%s.json" % v)
+            r = dict(r)
+            after = read(path)
+            r["spec_exists"] = after is not None
+            r["sentinel"] = before[(k, v)] is not None
+            r["untouched"] = r["exit"] != 0 and after == before[(k, v)] and after is not None
+            r["spec"] = None if r["untouched"] else T.P.load_json(path)
+            r["unparsable"] = r["spec_exists"] and not r["untouched"] and r["spec"] is None
+            r["bytes_before"] = len(before[(k, v)]) if before[(k, v)] is not None else None
+            r["bytes_after"] = len(after) if after is not None else None
+            r["tail"] = after[-160:].decode(errors="replace") if r["unparsable"] else None
+            r["dir"] = os.path.join(moddir, "q%d" % k)
+            step.setdefault(k, {})[v] = r
+        for k in step:
+            out[k].append(step[k])
+    return out
+
+
 # ------------------------------------------------------------------ main
 
 def main():
@@ -298,8 +506,13 @@ def main():
     quick = a.tier == "quick"
 
     items = []        # (label, universe)
+    seqs = []         # lists of (label, universe): steps generated one after the other over ONE output path
     if a.replay:
-        items.append(("replay", json.load(open(a.replay))["input"]))
+        inp = json.load(open(a.replay))["input"]
+        if isinstance(inp, dict) and "sequence" in inp:
+            seqs.append([(l, u) for l, u in inp["sequence"]])
+        else:
+            items.append(("replay", inp))
     else:
         corpus_file = os.path.join(CORPUS, PROP + ".json")
         if os.path.exists(corpus_file):
@@ -308,6 +521,7 @@ def main():
         items.append(("template-variable-renamed", renamed_variable_universe()))
         items.append(("context-param-first", context_first_universe()))
         items.append(("non-ascii-type-name", non_ascii_universe()))
+        items.append(("template-variable-named-by-other-annotation", named_by_query_universe()))
         items.append(("tricky", C07.tricky_universe()))
         items.append(("same-named", C07.same_named_universe()))
         nacc = 12 if quick else 200
@@ -326,9 +540,48 @@ def main():
                         items.append((kind, v))
                         break
 
+        # sequences draw from their own stream (the items above stay what they were for a given seed)
+        srng = random.Random(seed * 7919 + 8)
+        seqs.append(fixed_sequence())
+        seqs += [gen_sequence(srng, b) for b in srng.sample(bases, 4 if quick else 40)]
+
     universes = [u for _, u in items]
     sentinel = set(k for k, (label, _) in enumerate(items) if label not in ("accepted-stream",) and rng.random() < 0.5)
     obs = T.run_universes(PROP, universes, sentinel=sentinel)
+    # every step of a sequence is one more observed project: the universe of the step against whatever file is at
+    # the output path after the step (all clauses below apply to it as they are)
+    seq_of = {}       # index in universes -> (sequence, step)
+    for qi, steps in enumerate(run_sequences(PROP, seqs)):
+        for si, step in enumerate(steps):
+            seq_of[len(universes)] = (qi, si)
+            items.append(("sequence:" + seqs[qi][si][0], seqs[qi][si][1]))
+            universes.append(seqs[qi][si][1])
+            obs.append(step)
+
+    def seq_bad(pred, v):
+        """pred on the observation of the LAST step of a sequence run afresh for version v."""
+        def run(q):
+            steps = run_sequences(PROP + "_shrink", [q], versions=[v])[0]
+            return pred(q[-1][1], steps[-1][v])
+        return run
+
+    def seq_input(k, v, pred):
+        """The failing input of a sequence step: the project alone when it fails by itself, else the step before
+        and the step, else the sequence up to the step."""
+        qi, si = seq_of[k]
+        q = [[l, u] for l, u in seqs[qi][:si + 1]]
+        if a.replay:
+            return {"sequence": q}
+        bad = seq_bad(pred, v)
+        try:
+            if bad(q[-1:]):
+                return q[-1][1]
+            for lo in range(si - 1, 0, -1):
+                if bad(q[lo:]):
+                    return {"sequence": q[lo:]}
+        except Exception:
+            pass
+        return {"sequence": q}
 
     cases, meta = [], []
     hard = []         # violations that need no oracle
@@ -344,10 +597,14 @@ def main():
             if o["exit"] != 0 and o["spec_exists"] and not o["untouched"]:
                 hard.append((k, v, "the command failed (exit %s) but a spec file %s" %
                              (o["exit"], "replaced the one of an earlier run" if o["sentinel"] else "was written")))
+            if o["exit"] != 0 and o["sentinel"] and not o["spec_exists"]:
+                hard.append((k, v, "the command failed (exit %s) and the spec file of an earlier run is gone" % o["exit"]))
             if o["exit"] == 0 and (not o["spec_exists"] or o["untouched"]):
                 hard.append((k, v, "the command reported success but wrote no spec file"))
             if o["unparsable"]:
-                hard.append((k, v, "the spec file is not JSON"))
+                hard.append((k, v, "the spec file is not JSON" + (
+                    " (%s bytes at the output path before the run, %s after; the file ends with %r)"
+                    % (o["bytes_before"], o["bytes_after"], o["tail"]) if k in seq_of else "")))
             cases.append((v, u, o["spec"]))
             meta.append((k, v, "raw", set()))
             spec2, applied = neutralise(o["spec"], v, u)
@@ -367,7 +624,7 @@ def main():
         if e["unprojectable"]:
             return "unprojectable: " + e["unprojectable"][0]
         cl = set(e["c08_fail"].get(0, []))
-        if paths_mismatch_equal_counts(u):
+        if 2 in cl and clause2_is_f6(u, spec):
             cl.discard(2)
         if T.shape_errors(spec):
             cl.add(7)
@@ -404,7 +661,7 @@ def main():
         if j is not None and j not in ev["unprojectable"]:
             rest = set(ev["c08_fail"].get(j, []))
             classes |= set(meta[j][3])
-        if 2 in rest and paths_mismatch_equal_counts(u):
+        if 2 in rest and clause2_is_f6(u, cases[i][2]):
             rest.discard(2)
             classes.add(CLS_PATHS)
         if rest:
@@ -421,16 +678,32 @@ def main():
                 class_hits[c] = class_hits.get(c, 0) + 1
                 res.known(known[c], "the %s document written for a '%s' project: %s" %
                           (v, items[k][0], "; ".join(CLAUSES[x] for x in ev["c08_fail"][i])))
+    def hard_pred(u, o):
+        return (o["exit"] != 0 and o["spec_exists"] and not o["untouched"]) or o["unparsable"] \
+            or (o["exit"] != 0 and o["sentinel"] and not o["spec_exists"]) \
+            or (o["exit"] == 0 and (not o["spec_exists"] or o["untouched"]))
+
     for k, v, why in hard[:2]:
-        res.violation({"kind": "property-fails-on-implementation", "openapi": v, "input": universes[k],
+        res.violation({"kind": "property-fails-on-implementation", "openapi": v,
+                       "input": seq_input(k, v, hard_pred) if k in seq_of else universes[k],
                        "label": items[k][0], "why": why, "cli_exit": obs[k][v]["exit"],
-                       "cli_output": obs[k][v]["out"][-1500:]})
+                       "cli_output": obs[k][v]["out"][-1500:],
+                       "claim": "whatever file is at specGeneratorConfig.outputPath after a generate command is a valid, "
+                                "closed document (after a failed command: the bytes that were there before)"})
     reported = 0
     for i, why in unexplained:
         if reported >= 2:
             break
         reported += 1
         k, v, _, _ = meta[i]
+        if k in seq_of:
+            inp = seq_input(k, v, lambda u, o: o["spec"] is not None and unexplained_failure(u, v, o["spec"]) is not None)
+            res.violation({"kind": "property-fails-on-implementation", "openapi": v, "input": inp, "label": items[k][0],
+                           "why": why, "json_kind_errors": T.shape_errors(obs[k][v]["spec"]),
+                           "document": obs[k][v]["spec"], "cli_exit": obs[k][v]["exit"],
+                           "cli_output": obs[k][v]["out"][-1200:],
+                           "claim": "prop_C08 on the file at outputPath after every step of a sequence of generations"})
+            continue
         small = universes[k] if a.replay else T.shrink_universe(universes[k], still_fails(v))
         o = observe(small, v)
         res.violation({"kind": "property-fails-on-implementation", "openapi": v, "input": small, "label": items[k][0],
@@ -471,7 +744,10 @@ def main():
                 "with and without the optional scopes property, on controllers and routes; wf + configuration sections "
                 "(prop_C08) are evaluated by vm_compute on whatever file is at outputPath afterwards and the JSON kind of "
                 "every security / required / tags / parameters / responses member on the raw file, failed commands "
-                "must leave the path untouched; non-trivial = a document was written; distinct = distinct projects",
+                "must leave the path untouched; sequences (base, a smaller project: "
+                + ", ".join(SMALLER) + "; an edit that is usually refused; base again; the smallest project) are generated step by step by "
+                "fresh processes over ONE output path and every clause is evaluated on the file that is there after each "
+                "step; non-trivial = a document was written; distinct = distinct projects",
         "samples": [{"openapi": cases[i][0], "label": items[meta[i][0]][0], "universe": cases[i][1],
                      "cli_exit": obs[meta[i][0]][cases[i][0]]["exit"]} for i in raw[6:8]],
         "traces_validated_against_impl": len(raw) - len([i for i in ev["disagree_doc"] if meta[i][2] == "raw"]),
@@ -482,6 +758,14 @@ def main():
         "input_distribution": {"projects": len(universes), "cli_runs": len(raw), "labels": labels,
                                "documents_written": len(written), "commands_failed": len(raw) - len(written),
                                "runs_with_foreign_file_in_place": 2 * len(sentinel),
+                               "sequences": len(seqs), "sequence_steps": len(seq_of),
+                               "sequence_runs_writing_over_a_longer_file": len(
+                                   [1 for k in seq_of for v in T.VERSIONS if v in obs[k] and obs[k][v]["exit"] == 0
+                                    and obs[k][v]["bytes_before"] and obs[k][v]["bytes_after"] is not None
+                                    and obs[k][v]["bytes_before"] > obs[k][v]["bytes_after"]]),
+                               "sequence_runs_failing_over_an_existing_file": len(
+                                   [1 for k in seq_of for v in T.VERSIONS if v in obs[k] and obs[k][v]["exit"] != 0
+                                    and obs[k][v]["sentinel"]]),
                                "projects_with_a_scope_less_security_annotation_in_effect": len(
                                    [1 for u in universes if scopeless_in_effect(u)]),
                                "documents_failing_the_json_kind_clause": shape_failures,
